@@ -227,9 +227,12 @@ var Inputs = [][]byte{
 
 // Walker runs cases through one interpreter session.
 type Walker struct {
-	R   *core.Run
-	S   *fqrun.Session
-	Drv Driver
+	// Named: also walk NamedProgs (field names colliding with fq's own value keys); only for
+	// drivers that do not read those keys themselves
+	Named bool
+	R     *core.Run
+	S     *fqrun.Session
+	Drv   Driver
 	// per batch
 	pending []*Tree
 	fast    bool
@@ -465,7 +468,31 @@ func (w *Walker) WalkDSL(maxOps, slowOps int, fn func(*Tree)) bool {
 		}
 		return true
 	})
-	flush()
+	// programs whose field names collide with fq's own value keys or need quoting in a path
+	// (the enumeration uses plain names): the member a format names must win over the key
+	// fq adds, and every name must round trip through topath / getpath
+	if complete && only == "" && w.Named {
+		for i, ps := range NamedProgs {
+			idx := total + int64(i)
+			if !r.Mine(idx) {
+				continue
+			}
+			r.Case(idx, ps)
+			for ci, cfg := range DSLConfigs {
+				if ci > 1 {
+					break
+				}
+				c := TreeCase{Kind: "dsl", Prog: ps, Input: hex.EncodeToString(Inputs[cfg.Input]), Slice: cfg.Slice, K: cfg.K, RootArray: cfg.RootArray}
+				t, err := BuildDSL(c)
+				if err != nil {
+					panic(err)
+				}
+				pend = append(pend, t)
+			}
+			r.Count("dsl_named_programs", 1)
+		}
+		flush()
+	}
 	if r.ShardIdx == 0 {
 		r.Extra("dsl_programs_total", total)
 		r.Extra("dsl_max_ops", maxOps)
@@ -651,4 +678,14 @@ func RefIndex(root *dsl.RNode) map[string]*dsl.RNode {
 	}
 	walk(root, nil)
 	return m
+}
+
+// NamedProgs: field names equal to value keys fq adds (those the drivers do not use to
+// identify a node themselves) and names that are not identifiers.
+var NamedProgs = []string{
+	`[{"k":"struct","n":"t","b":[{"k":"u","n":"_len","w":8},{"k":"u","n":"_bits","w":8},{"k":"u","n":"_bytes","w":3},{"k":"u","n":"_gap","w":5}]}]`,
+	`[{"k":"u","n":"_sym","w":8},{"k":"struct","n":"_actual","b":[{"k":"u","n":"_description","w":3},{"k":"u","n":"_format","w":5}]},{"k":"array","n":"_error","b":[{"k":"u","n":"_out","w":8}]}]`,
+	`[{"k":"struct","n":"_len","b":[{"k":"struct","n":"_len","b":[{"k":"u","n":"_len","w":8}]}]}]`,
+	`[{"k":"u","n":"a b","w":8},{"k":"u","n":"1a","w":3},{"k":"u","n":"a.b","w":5},{"k":"struct","n":"[0]","b":[{"k":"u","n":"é","w":8}]}]`,
+	`[{"k":"struct","n":"a\"b","b":[{"k":"u","n":"c\\d","w":8},{"k":"u","n":"$x","w":8}]}]`,
 }
